@@ -30,7 +30,7 @@ JudgeProto(r, ln) ==
       big   == IF r.kind = "ldap" THEN LdapTooBig(r.pf) ELSE ScimTooBig(r.pf)
       expl(a) == IF big \/ a.rej THEN r.err # "" ELSE (r.err = "" /\ a.s = res)
       l2    == expl(ans) \/ expl(ansF)
-      sig   == ProtoSig(r.kind, r.pf, wr, db, idx, c) \o (IF expl(ans) THEN "/l2" ELSE "/nol2")
+      sig   == ProtoSig(r.kind, r.pf, wr, db, idx, c) \o (IF l2 THEN "/l2" ELSE "/nol2")
   IN /\ (l1 \/ (Tally(21) /\ PrintT(<<"L1FAIL", "C41", ln, sig>>)))
      /\ (l2 \/ (Tally(22) /\ PrintT(<<"L2DRIFT", "C41", ln>>)))
 Judge == l <= Len(Rec) => (IF Rec[l].a = "proto" THEN JudgeProto(Rec[l], l) ELSE TRUE)
